@@ -8,13 +8,16 @@ against the contract, and the two backends' traces are additionally compared lin
 import json
 import os
 import random
+import re
 import shutil
+import subprocess
+import threading
 import time
 from concurrent.futures import ThreadPoolExecutor
 
-from vlib import (Verdict, build_harness, run_harness, tlc_check, tlc_trace, write_cfg,
-                  replay_lines, drop_prefixes, workdir, log, seed, behaviour_at, write_replay,
-                  split_behaviours)
+import vlib
+from vlib import (Verdict, build_harness, run_harness, tlc_check, write_cfg, replay_lines,
+                  drop_prefixes, workdir, log, seed, write_replay)
 
 READERS = ["GetTask", "AllTasks", "AllTaskUuids", "BaseVersion", "UnsyncedOperations",
            "NumUnsynced", "GetTaskOperations", "GetWorkingSet", "GetPendingTasks", "IsEmpty"]
@@ -30,6 +33,9 @@ BASE = {
     "MaxLen": 9999, "MaxMut": 3, "MaxTxn": 2, "Emit": False, "EmitAll": False,
 }
 INVS = ["STypeOK", "WellFormed", "ContractOK"]
+LOCK = threading.Lock()
+# short JVM runs: C1 only and two GC threads cost a quarter of the CPU time of the defaults
+JVM_LIGHT = "-XX:TieredStopAtLevel=1 -XX:ParallelGCThreads=2"
 
 
 def consts(**kw):
@@ -38,18 +44,19 @@ def consts(**kw):
     return c
 
 
-def trace_consts(c, dev=()):
-    return {k: c[k] for k in ("Tasks", "Props", "Vals", "Times", "Cap", "BigVals", "BigSize",
-                              "Versions")} | {"SDev": set(dev)}
+def trace_consts(dev=()):
+    return {k: BASE[k] for k in ("Tasks", "Props", "Vals", "Times", "Cap", "BigVals", "BigSize",
+                                 "Versions")} | {"SDev": set(dev)}
 
 
 def mc(v, wd, name, c, timeout=600, expect=None):
     cfg = write_cfg(os.path.join(wd, name + ".cfg"), c, init="MInit", next_="MNext",
                     invariants=INVS, view="SView", properties=["Atomic"])
-    r = tlc_check(wd, name, "MCStorage.tla", cfg, timeout=timeout)
+    r = tlc_check(wd, name, "MCStorage.tla", cfg, timeout=timeout, workers=4)
     log(f"[mc] {name}: {r['distinct']} distinct / {r['states']} generated, depth {r['depth']}, "
         f"{r['wall_s']}s, violated={r['violated']}, timed_out={r['timed_out']}")
-    v.mc(r, expect_violation=expect)
+    with LOCK:
+        v.mc(r, expect_violation=expect)
     return r
 
 
@@ -60,9 +67,9 @@ def gen(wd, name, c, simulate=None, depth=None, timeout=300, limit=None):
     cfg = write_cfg(os.path.join(wd, name + ".cfg"), c, init="MInit", next_="MNext",
                     invariants=["MEmit"], constraint=None if simulate else "HBound")
     r = tlc_check(wd, name, "MCStorage.tla", cfg, timeout=timeout, simulate=simulate, depth=depth,
-                  seed_=seed(), workers=1 if simulate else None)
+                  seed_=seed(), workers=1 if simulate else 4)
     if r["error"] or (not r["completed"] and not r["timed_out"]):
-        raise RuntimeError(f"{name}: TLC failed: {r['error']} (see {r['out']})")
+        raise vlib.ToolError(f"{name}: TLC failed: {r['error']} (see {r['out']})")
     sch = drop_prefixes(replay_lines(r["out"]))
     if simulate and not limit:
         limit = simulate
@@ -102,16 +109,11 @@ def finish_steps(steps, tasks, variant, reopen):
     then read everything back in a fresh transaction."""
     steps = list(steps)
     is_open = False
-    ro = False
     for s in steps:
         if s["a"] == "Begin":
             is_open = True
         elif s["a"] in ("Abandon", "Commit"):
             is_open = False
-        elif s["a"] == "Reopen":
-            ro = s["v"] == "ro"
-        elif s["a"] == "Legacy":
-            ro = False
     if is_open:
         steps += probes(tasks, short=True)
         steps.append(mk("Commit") if variant == 0 else mk("Abandon"))
@@ -121,19 +123,25 @@ def finish_steps(steps, tasks, variant, reopen):
     return steps
 
 
-def plain(steps):
-    return all(s["a"] != "Legacy" and not (s["a"] == "Reopen" and s["v"] == "ro") for s in steps)
-
-
-def write_stimuli(path, seqs, backend, valclass, tasks, reopen_end=False):
-    n = 0
-    with open(path, "w") as f:
-        for i, h in enumerate(seqs):
-            steps = finish_steps(h, tasks, i % 2, reopen_end and backend == "sqlite")
-            f.write(json.dumps({"id": i, "backend": backend, "valclass": valclass,
-                                "steps": steps}) + "\n")
-            n += 1
-    return n
+def brief(e):
+    """One recorded event as 'call(arguments) -> status value'."""
+    if e["a"] != "Call":
+        return " ".join(str(e.get(k)) for k in ("a", "v", "st") if e.get(k) is not None)
+    c = e["c"]
+    args = []
+    if c["u"] != "-":
+        args.append(c["u"])
+    if c["a"] == "SetTask":
+        args.append(",".join(f"{k}={x}" for k, x in sorted(c["m"].items()) if x != "~"))
+    if c["a"] in ("AddOperation", "RemoveOperation"):
+        o = c["op"]
+        args.append(o["k"] + (f"({o['u']},{o['p']},{o['v']})" if o["k"] == "U" else
+                              f"({o['u']})" if o["k"] != "P" else ""))
+    if c["a"] == "SetBaseVersion":
+        args.append(c["v"])
+    if c["a"] == "SetWorkingSetItem":
+        args += [str(c["i"]), c["x"]]
+    return f"{c['a']}({' '.join(args)}) -> {e['st']} {json.dumps(e['v'])}"
 
 
 def sqlite3_cli():
@@ -143,227 +151,295 @@ def sqlite3_cli():
     return None
 
 
-def validate(v, wd, name, c, trace, stimuli, chunk=60000, dev=(), expect_reject=False):
-    """TLC trace validation of one recorded trace (split into chunks at Reset events, validated
-    in parallel).  Returns the number of rejected behaviours."""
-    bs = split_behaviours(trace)
-    chunks, cur, cur_n = [], [], 0
-    for b in bs:
-        if cur and cur_n + len(b[1]) > chunk:
-            chunks.append(cur)
-            cur, cur_n = [], 0
-        cur.append(b)
-        cur_n += len(b[1])
-    if cur:
-        chunks.append(cur)
-    tcfg = write_cfg(os.path.join(wd, name + ".trace.cfg"), trace_consts(c, dev), spec="TSpec",
-                     invariants=["WellFormed"], postcondition="Accepted")
-
-    def one(k):
-        failures = []
-        behs = chunks[k]
-        rounds = 0
-        while behs and rounds < 4:
-            p = os.path.join(wd, f"{name}.c{k}.r{rounds}.ndjson")
-            with open(p, "w") as f:
-                for _, ls in behs:
-                    f.writelines(ls)
-            r = tlc_trace(wd, f"{name}.tv{k}r{rounds}", "TraceStorage.tla", tcfg, p)
-            if r["accepted"]:
-                return failures, len(behs), sum(len(b[1]) for b in behs), None, r
-            if r["timed_out"] or (r["rejected_at"] is None and not r["violated"]):
-                return failures, 0, 0, f"{name}: trace validation did not finish: " \
-                    f"{r.get('error')} (see {r['out']})", r
-            line = r["rejected_at"] if r["rejected_at"] else r.get("violated_at_line", 1)
-            kk, lines, off = behaviour_at(p, line)
-            failures.append((lines, off, r["event"], r["violated"]))
-            behs = [b for j, b in enumerate(behs) if j != kk]
-            rounds += 1
-        return failures, len(behs), sum(len(b[1]) for b in behs), None, None
-
-    t_ok = e_ok = 0
-    nfail = 0
-    with ThreadPoolExecutor(max_workers=4) as ex:
-        for failures, nb, ne, err, r in ex.map(one, range(len(chunks))):
-            if err:
-                v.tool_errors.append(err)
-            t_ok += nb
-            e_ok += ne
-            for lines, off, ev, inv in failures:
-                nfail += 1
-                if expect_reject:
-                    continue
-                hdr = json.loads(lines[0])
-                bid = hdr.get("id")
-                if isinstance(ev, dict) and ev.get("st") == "toolerror":
-                    v.tool_errors.append(f"{name}: {ev.get('msg')}")
-                    continue
-                what = (f"invariant {inv} violated while following the recorded execution" if inv
-                        else "recorded storage call is not a step of the StorageTxn contract: "
-                             f"{json.dumps(ev)[:400]}")
-                payload = {"kind": "storage-trace-rejection", "check": name, "behaviour": bid,
-                           "backend": hdr.get("backend"), "valclass": hdr.get("valclass"),
-                           "stimulus": stimuli[bid] if bid is not None and bid < len(stimuli) else None,
-                           "rejected_event_index": off, "rejected_event": ev, "invariant": inv,
-                           "trace": [json.loads(x) for x in lines], "what": what,
-                           "constants": {k2: sorted(v2) if isinstance(v2, (set, frozenset)) else v2
-                                         for k2, v2 in trace_consts(c).items()}}
-                pth = write_replay(v.pid, f"{name}-b{bid}", payload)
-                v.violations.append((what, pth))
-    if not expect_reject:
-        v.traces += t_ok
-        v.events += e_ok
-    return nfail, t_ok, e_ok
-
-
-def replay(wd, name, seqs, backend, valclass, tasks, reopen_end=False, cli=None):
-    stim = os.path.join(wd, f"{name}.stim.ndjson")
-    trace = os.path.join(wd, f"{name}.trace.ndjson")
-    write_stimuli(stim, seqs, backend, valclass, tasks, reopen_end)
-    d = scratch_dir(wd, name)
-    args = ["storage-replay", "--in", stim, "--out", trace, "--dir", d, "--jobs", "6"]
-    if cli:
-        args += ["--sqlite3", cli]
-    try:
-        run_harness(args)
-    finally:
-        shutil.rmtree(d, ignore_errors=True)
-    return stim, trace
-
-
-def conform(v, wd, name, c, seqs, backend, valclass="ascii", reopen_end=False, cli=None):
-    if not seqs:
-        v.tool_errors.append(f"{name}: TLC produced no call sequences")
-        return None
-    tasks = sorted(c["TaskArgs"] | c["OpTaskArgs"])
-    t0 = time.time()
-    stim, trace = replay(wd, name, seqs, backend, valclass, tasks, reopen_end, cli)
-    t1 = time.time()
-    stimuli = [json.loads(x) for x in open(stim)]
-    nfail, t_ok, e_ok = validate(v, wd, name, c, trace, stimuli)
-    t2 = time.time()
-    v.evaluations += len(seqs)
-    if not v.samples:
-        v.samples.append({"backend": backend, "stimulus": stimuli[0]["steps"][:8],
-                          "recorded": [json.loads(x) for x in open(trace).readlines()[:6]]})
-    log(f"[conform] {name}: {len(seqs)} sequences on {backend}/{valclass}: {t_ok} traces, "
-        f"{e_ok} events accepted, {nfail} rejected (replay {t1 - t0:.1f}s, validation {t2 - t1:.1f}s)")
-    return trace
-
-
-def differential(v, name, trace_a, trace_b):
-    """Direct comparison of two backends' records of the same stimuli (results as logged, with
-    unordered collections sorted by the harness); reopen events are ignored."""
-    def norm(path):
-        out = []
-        for line in open(path):
-            e = json.loads(line)
-            if e["a"] in ("Reopen",):
-                continue
-            e.pop("backend", None)
-            e.pop("msg", None)
-            out.append(e)
-        return out
-    a, b = norm(trace_a), norm(trace_b)
-    diffs = 0
-    if len(a) != len(b):
-        diffs += 1
-    for x, y in zip(a, b):
-        if x != y:
-            diffs += 1
-            if diffs <= 3:
-                p = write_replay(v.pid, f"{name}-diff{diffs}", {"kind": "backend-difference",
-                                                               "in_memory": x, "sqlite": y})
-                v.violations.append((f"in-memory and SQLite storage disagree: {json.dumps(x)[:200]} "
-                                     f"vs {json.dumps(y)[:200]}", p))
-    log(f"[diff] {name}: {len(a)} events compared across backends, {diffs} differences")
-    v.extra.setdefault("backend_events_compared", 0)
-    v.extra["backend_events_compared"] += len(a)
-    return diffs
-
-
 def scratch_dir(wd, name):
     """Scratch SQLite directories: tmpfs when there is one (fsync is the dominant cost of the
     thousands of short-lived databases), else the work directory."""
     shm = "/dev/shm"
     if os.path.isdir(shm) and os.access(shm, os.W_OK):
-        d = os.path.join(shm, f"verif-C16-{os.getpid()}-{name}")
-        return d
+        return os.path.join(shm, f"verif-C16-{os.getpid()}-{name}")
     return os.path.join(wd, name + ".dbs")
 
 
-MUT_ONLY = set(MUTATORS)
+class Run:
+    """One check run: the recorded traces of all steps are validated together at the end."""
+
+    def __init__(self, v, wd):
+        self.v = v
+        self.wd = wd
+        self.traces = []          # (name, trace path)
+        self.stimuli = {}         # name -> list of stimuli
+
+    def replay(self, name, c, seqs, backend, valclass="ascii", reopen_end=False, cli=None):
+        """Run the sequences on one backend; returns the trace path."""
+        if not seqs:
+            with LOCK:
+                self.v.tool_errors.append(f"{name}: TLC produced no call sequences")
+            return None
+        tasks = sorted(c["TaskArgs"] | c["OpTaskArgs"])
+        stim = os.path.join(self.wd, f"{name}.stim.ndjson")
+        trace = os.path.join(self.wd, f"{name}.trace.ndjson")
+        stimuli = []
+        with open(stim, "w") as f:
+            for i, h in enumerate(seqs):
+                b = {"id": i, "check": name, "backend": backend, "valclass": valclass,
+                     "steps": finish_steps(h, tasks, i % 2, reopen_end and backend == "sqlite")}
+                stimuli.append(b)
+                f.write(json.dumps(b) + "\n")
+        d = scratch_dir(self.wd, name)
+        args = ["storage-replay", "--in", stim, "--out", trace, "--dir", d, "--jobs", "4"]
+        if cli:
+            args += ["--sqlite3", cli]
+        t0 = time.time()
+        try:
+            run_harness(args)
+        finally:
+            shutil.rmtree(d, ignore_errors=True)
+        with LOCK:
+            self.traces.append((name, trace))
+            self.stimuli[name] = stimuli
+            self.v.evaluations += len(seqs)
+            if backend == "sqlite" and (name.startswith("sim-") or name.startswith("legacy")
+                                        or name.startswith("readonly")) and len(self.v.samples) < 4:
+                with open(trace) as tf:
+                    evs = [json.loads(next(tf)) for _ in range(14)]
+                self.v.samples.append({"check": name, "backend": backend, "valclass": valclass,
+                                       "first_recorded_calls": [brief(e) for e in evs]})
+        log(f"[replay] {name}: {len(seqs)} sequences on {backend}/{valclass} "
+            f"({time.time() - t0:.1f}s)")
+        return trace
+
+    def pair(self, name, c, seqs, valclass="ascii", sqlite_cap=None):
+        """The same sequences on the in-memory and on the SQLite backend (closed and reopened
+        before the final readers), compared with each other line by line."""
+        tm = self.replay(name + "-mem", c, seqs, "mem", valclass=valclass)
+        sq = seqs
+        if sqlite_cap and len(seqs) > sqlite_cap:
+            sq = random.Random(seed()).sample(seqs, sqlite_cap)
+            with LOCK:
+                self.v.extra[name + "_sqlite_sample"] = (
+                    f"{len(sq)} of {len(seqs)} sequences on SQLite (all of them in memory)")
+        ts = self.replay(name + "-sqlite", c, sq, "sqlite", valclass=valclass, reopen_end=True)
+        if tm and ts and len(sq) == len(seqs):
+            self.differential(name, tm, ts)
+        return ts
+
+    def differential(self, name, trace_a, trace_b):
+        """Direct comparison of two backends' records of the same stimuli (results as logged,
+        unordered collections sorted by the harness); reopen events are ignored."""
+        def norm(path):
+            out = []
+            for line in open(path):
+                e = json.loads(line)
+                if e["a"] == "Reopen":
+                    continue
+                for k in ("backend", "msg", "check"):
+                    e.pop(k, None)
+                out.append(e)
+            return out
+        a, b = norm(trace_a), norm(trace_b)
+        diffs = 0 if len(a) == len(b) else 1
+        for x, y in zip(a, b):
+            if x != y:
+                diffs += 1
+                if diffs <= 3:
+                    p = write_replay(self.v.pid, f"{name}-diff{diffs}",
+                                     {"kind": "backend-difference", "in_memory": x, "sqlite": y})
+                    with LOCK:
+                        self.v.violations.append(
+                            (f"in-memory and SQLite storage disagree: {json.dumps(x)[:200]} vs "
+                             f"{json.dumps(y)[:200]}", p))
+        log(f"[diff] {name}: {len(a)} events compared across backends, {diffs} differences")
+        with LOCK:
+            self.v.extra.setdefault("backend_events_compared", 0)
+            self.v.extra["backend_events_compared"] += len(a)
+            self.v.extra.setdefault("backend_differences", 0)
+            self.v.extra["backend_differences"] += diffs
+
+    # ---- TLC trace validation
+    def tlc_trace(self, name, cfg, trace, timeout=900):
+        metadir = os.path.join(self.wd, "tlc_" + name)
+        outp = os.path.join(self.wd, name + ".out")
+        env = dict(os.environ)
+        env["TRACE"] = trace
+        env["JAVA_TOOL_OPTIONS"] = ("-Xss1g -Dtlc2.tool.queue.IStateQueue=StateDeque " + JVM_LIGHT)
+        cmd = ["timeout", str(timeout)] + vlib._tlc_cmd("TraceStorage.tla", cfg, metadir, 1, [])
+        t0 = time.time()
+        with open(outp, "w") as f:
+            p = subprocess.run(cmd, stdout=f, stderr=subprocess.STDOUT, env=env, cwd=self.wd)
+        out = open(outp, errors="replace").read()
+        r = vlib.parse_tlc(out)
+        r.update(rc=p.returncode, timed_out=p.returncode == 124, out=outp,
+                 wall_s=round(time.time() - t0, 1), rejected_at=None, event=None)
+        m = re.search(r'<<"TRACE-REJECTED-AT", (\d+), (".*")>>', out)
+        if m:
+            r["rejected_at"] = int(m.group(1))
+            try:
+                r["event"] = json.loads(json.loads(m.group(2)))
+            except Exception:
+                r["event"] = m.group(2)
+        r["accepted"] = (r["completed"] and r["violated"] is None and r["rejected_at"] is None
+                         and p.returncode == 0)
+        if r["violated"]:
+            mm = re.findall(r"/\\ l = (\d+)", out)
+            if mm:
+                r["violated_at_line"] = int(mm[-1]) - 1
+        shutil.rmtree(metadir, ignore_errors=True)
+        return r
+
+    def validate(self, label, traces, dev=(), expect_reject=False, chunk=50000, max_rounds=4):
+        """Validate recorded traces against TraceStorage.tla: behaviours (Reset .. next Reset)
+        are packed into chunks, each chunk one TLC run; a rejected behaviour is reported and the
+        rest of its chunk validated again without it."""
+        behs = []
+        for _, path in traces:
+            cur = None
+            for line in open(path):
+                if line.startswith('{"a":"Reset"'):
+                    cur = []
+                    behs.append(cur)
+                cur.append(line)
+        chunks, cur, n = [], [], 0
+        for b in behs:
+            if cur and n + len(b) > chunk:
+                chunks.append(cur)
+                cur, n = [], 0
+            cur.append(b)
+            n += len(b)
+        if cur:
+            chunks.append(cur)
+        cfg = write_cfg(os.path.join(self.wd, label + ".trace.cfg"), trace_consts(dev),
+                        spec="TSpec", invariants=["WellFormed"], postcondition="Accepted")
+
+        def one(k):
+            bs = chunks[k]
+            failures = []
+            for rnd in range(max_rounds):
+                if not bs:
+                    break
+                p = os.path.join(self.wd, f"{label}.c{k}.r{rnd}.ndjson")
+                with open(p, "w") as f:
+                    for b in bs:
+                        f.writelines(b)
+                r = self.tlc_trace(f"{label}.tv{k}r{rnd}", cfg, p)
+                if r["accepted"]:
+                    os.remove(p)
+                    return failures, len(bs), sum(map(len, bs)), None
+                if r["timed_out"] or (r["rejected_at"] is None and not r["violated"]):
+                    return failures, 0, 0, (f"{label}: trace validation did not finish: "
+                                            f"{r.get('error')} (see {r['out']})")
+                line = r["rejected_at"] if r["rejected_at"] else r.get("violated_at_line", 1)
+                acc = 0
+                for j, b in enumerate(bs):
+                    if acc < line <= acc + len(b):
+                        failures.append((b, line - acc - 1, r["event"], r["violated"]))
+                        bs = bs[:j] + bs[j + 1:]
+                        break
+                    acc += len(b)
+                else:
+                    return failures, 0, 0, f"{label}: cannot locate rejected line {line}"
+                if expect_reject:
+                    break
+            return failures, 0, 0, None
+
+        t_ok = e_ok = nfail = 0
+        t0 = time.time()
+        with ThreadPoolExecutor(max_workers=3) as ex:
+            for failures, nb, ne, err in ex.map(one, range(len(chunks))):
+                if err:
+                    with LOCK:
+                        self.v.tool_errors.append(err)
+                t_ok += nb
+                e_ok += ne
+                for lines, off, ev, inv in failures:
+                    nfail += 1
+                    if not expect_reject:
+                        self.report(lines, off, ev, inv)
+        if not expect_reject:
+            with LOCK:
+                self.v.traces += t_ok
+                self.v.events += e_ok
+        log(f"[validate] {label}: {len(behs)} recorded behaviours in {len(chunks)} TLC runs: "
+            f"{t_ok} accepted ({e_ok} events), {nfail} rejected, {time.time() - t0:.1f}s")
+        return nfail
+
+    def report(self, lines, off, ev, inv):
+        hdr = json.loads(lines[0])
+        bid, name = hdr.get("id"), hdr.get("check")
+        if isinstance(ev, dict) and ev.get("st") == "toolerror":
+            with LOCK:
+                self.v.tool_errors.append(f"{name}: {ev.get('msg')}")
+            return
+        what = (f"invariant {inv} violated while following the recorded execution" if inv
+                else "recorded storage call is not a step of the StorageTxn contract: "
+                     f"{json.dumps(ev)[:400]}")
+        st = self.stimuli.get(name, [])
+        payload = {"kind": "trace-rejection", "driver": "storage-replay",
+                   "trace_module": "TraceStorage.tla", "invariants": ["WellFormed"],
+                   "storage": hdr.get("backend"), "check": name, "behaviour": bid,
+                   "backend": hdr.get("backend"), "valclass": hdr.get("valclass"),
+                   "stimulus": st[bid] if bid is not None and bid < len(st) else None,
+                   "rejected_event_index": off, "rejected_event": ev, "invariant": inv,
+                   "trace": [json.loads(x) for x in lines], "what": what,
+                   "constants": {k: sorted(x) if isinstance(x, (set, frozenset)) else x
+                                 for k, x in trace_consts().items()}}
+        pth = write_replay(self.v.pid, f"{name}-b{bid}", payload)
+        with LOCK:
+            self.v.violations.append((what, pth))
 
 
 def run(tier):
     v = Verdict("C16", tier)
     wd = workdir("C16-" + tier)
     build_harness()
+    os.environ.setdefault("JAVA_TOOL_OPTIONS", "-Xss512m " + JVM_LIGHT)
     thorough = tier == "thorough"
     cli = sqlite3_cli()
-    rnd = random.Random(seed())
+    run_ = Run(v, wd)
+    ex = ThreadPoolExecutor(max_workers=4)
 
-    # 1. the contract: documented return values hold in every reachable buffer
+    # ---- TLC runs
+    # 1. the contract: documented return values hold in every reachable buffer; anti-vacuity:
+    #    the two deviations must violate the documented clauses
     c = consts(MaxMut=4 if thorough else 3, MaxTxn=2, Modes={"reopen", "ro", "legacy"})
-    mc(v, wd, "contract", c, timeout=1500)
-    # anti-vacuity: the two deviations must violate the documented clauses
-    mc(v, wd, "dev-delete-true", dict(c, SDev={"DEL"}), expect="ContractOK")
-    mc(v, wd, "dev-add-index-plus-1", dict(c, SDev={"ADD"}), expect="ContractOK")
-
+    f_mc = [ex.submit(mc, v, wd, "contract", c, 1500),
+            ex.submit(mc, v, wd, "dev-delete-true", dict(c, SDev={"DEL"}), 600, "ContractOK"),
+            ex.submit(mc, v, wd, "dev-add-index-plus-1", dict(c, SDev={"ADD"}), 600, "ContractOK")]
     # 2. every call sequence up to a length, within and across transactions (exhaustive):
     #    A: all 45 call shapes (2 task ids);  B: the 21 mutator shapes of one task, longer
     ga = consts(MaxLen=4 if thorough else 3, MaxMut=99, MaxTxn=99)
-    sa = gen(wd, "gen-all-sequences-45-shapes", ga, timeout=1200)
     gb = consts(MaxLen=5 if thorough else 4, MaxMut=99, MaxTxn=99, TaskArgs={"u1"},
-                OpTaskArgs={"u1"}, Kinds=MUT_ONLY)
-    sb = gen(wd, "gen-all-sequences-21-mutators", gb, timeout=1200)
-    v.distinct += len(sa) + len(sb)
-    tm = conform(v, wd, "seqA-mem", ga, sa, "mem")
-    ts = conform(v, wd, "seqA-sqlite", ga, sa, "sqlite", reopen_end=True)
-    differential(v, "seqA", tm, ts)
-    tm = conform(v, wd, "seqB-mem", gb, sb, "mem")
-    sbq = sb if len(sb) <= 60000 else rnd.sample(sb, 60000)
-    ts = conform(v, wd, "seqB-sqlite", gb, sbq, "sqlite", reopen_end=True)
-    if len(sbq) == len(sb):
-        differential(v, "seqB", tm, ts)
-    if not thorough:
-        # a sample of the next length with all shapes
-        gs = consts(MaxLen=4, MaxMut=99, MaxTxn=99)
-        s4 = gen(wd, "gen-sequences-len4-sample", gs, timeout=600, limit=2500)
-        v.distinct += len(s4)
-        tm = conform(v, wd, "seq4-mem", gs, s4, "mem")
-        ts = conform(v, wd, "seq4-sqlite", gs, s4, "sqlite", reopen_end=True)
-        differential(v, "seq4", tm, ts)
-
+                OpTaskArgs={"u1"}, Kinds=set(MUTATORS))
     # 3. long sequences by simulation: all tasks, all maps, several transactions, reopen anywhere
     s = consts(TaskArgs={"u1", "u2", "u3"}, OpTaskArgs={"u1", "u2", "u3"}, MapSel="all",
                MaxLen=40, MaxMut=99, MaxTxn=99)
-    sim = gen(wd, "gen-sim-depth40", s, simulate=4000 if thorough else 300, depth=41, timeout=900)
-    v.distinct += len(sim)
-    tm = conform(v, wd, "sim-mem", s, sim, "mem")
-    ts_sim = conform(v, wd, "sim-sqlite", s, sim, "sqlite", reopen_end=True)
-    differential(v, "sim", tm, ts_sim)
-    for vc in ("unicode", "edge"):
-        part = sim if thorough else sim[:100]
-        tm2 = conform(v, wd, f"sim-mem-{vc}", s, part, "mem", valclass=vc)
-        ts2 = conform(v, wd, f"sim-sqlite-{vc}", s, part, "sqlite", valclass=vc, reopen_end=True)
-        differential(v, f"sim-{vc}", tm2, ts2)
-
     # 4. read-only handles and databases written under older schemas (SQLite only)
     r = consts(Modes={"reopen", "ro"}, MaxLen=30, MaxMut=99, MaxTxn=99)
-    ros = gen(wd, "gen-sim-readonly", r, simulate=2000 if thorough else 250, depth=31)
+    lg = consts(Modes={"legacy", "reopen"}, MaxLen=30, MaxMut=99, MaxTxn=99,
+                OpTaskArgs={"u1", "u2", "u3"})
+    f_a = ex.submit(gen, wd, "gen-all-sequences-45-shapes", ga, None, None, 1200)
+    f_b = ex.submit(gen, wd, "gen-all-sequences-21-mutators", gb, None, None, 1200)
+    f_s = ex.submit(gen, wd, "gen-sim-depth40", s, 4000 if thorough else 300, 41, 900)
+    f_r = ex.submit(gen, wd, "gen-sim-readonly", r, 2000 if thorough else 250, 31)
+    f_l = ex.submit(gen, wd, "gen-sim-legacy", lg, 2000 if thorough else 250, 31) if cli else None
+    sa, sb, sim, ros = f_a.result(), f_b.result(), f_s.result(), f_r.result()
     ros = [h for h in ros if any(x["a"] == "Reopen" and x["v"] == "ro" for x in h)]
-    v.distinct += len(ros)
-    conform(v, wd, "readonly-sqlite", r, ros, "sqlite")
+    leg = [h for h in f_l.result() if any(x["a"] == "Legacy" for x in h)] if cli else []
+    for f in f_mc:
+        f.result()
+    v.distinct += len(sa) + len(sb) + len(sim) + len(ros) + len(leg)
+
+    # ---- the sequences on the real backends
+    jobs = [ex.submit(run_.pair, "seqB", gb, sb, "ascii", 60000 if thorough else 2000),
+            ex.submit(run_.pair, "seqA", ga, sa)]
+    f_sim = ex.submit(run_.pair, "sim", s, sim)
+    for vc in ("unicode", "edge"):
+        jobs.append(ex.submit(run_.pair, f"sim-{vc}", s, sim if thorough else sim[:100], vc))
+    jobs.append(ex.submit(run_.replay, "readonly-sqlite", r, ros, "sqlite"))
     legacy_note = None
     if cli:
-        lg = consts(Modes={"legacy", "reopen"}, MaxLen=30, MaxMut=99, MaxTxn=99,
-                    OpTaskArgs={"u1", "u2", "u3"})
-        leg = gen(wd, "gen-sim-legacy", lg, simulate=2000 if thorough else 250, depth=31)
-        leg = [h for h in leg if any(x["a"] == "Legacy" for x in h)]
-        v.distinct += len(leg)
-        conform(v, wd, "legacy-sqlite", lg, leg, "sqlite", cli=cli)
-        conform(v, wd, "legacy-sqlite-unicode", lg, leg[:100], "sqlite", valclass="unicode", cli=cli)
+        jobs.append(ex.submit(run_.replay, "legacy-sqlite", lg, leg, "sqlite", "ascii", False, cli))
+        jobs.append(ex.submit(run_.replay, "legacy-sqlite-unicode", lg, leg[:100], "sqlite",
+                              "unicode", False, cli))
         per = {ver: sum(1 for h in leg for x in h if x["a"] == "Legacy" and x["v"] == ver)
                for ver in ("0.8", "0.9", "0.1", "0.2")}
         v.extra["legacy_schemas"] = {"rewrites_per_schema": per, "created_with": cli,
@@ -371,27 +447,33 @@ def run(tier):
     else:
         legacy_note = "no sqlite3 command-line tool found: legacy schemas skipped"
         v.extra["legacy_schemas"] = {"skipped": legacy_note}
+    ts_sim = f_sim.result()
+    for j in jobs:
+        j.result()
+    ex.shutdown()
+
+    # ---- every recorded call validated against the contract by TLC
+    run_.validate("contract-traces", run_.traces)
 
     # 5. binding demonstration: the recorded traces pin the return values -- validated against
-    #    the specification with a deviation switched on, the same real traces must be rejected
+    #    the specification with a deviation switched on, real traces must be rejected
     if ts_sim:
-        few = os.path.join(wd, "binding.trace.ndjson")
-        with open(few, "w") as f:
-            for _, ls in split_behaviours(ts_sim)[:100]:
-                f.writelines(ls)
+        few = [("sim-sqlite", ts_sim)]
         for dev in ("DEL", "ADD"):
-            nfail, _, _ = validate(v, wd, f"binding-{dev}", s, few, [], dev=[dev],
-                                   expect_reject=True)
+            nfail = run_.validate(f"binding-{dev}", few, dev=[dev], expect_reject=True)
             v.extra.setdefault("binding_demonstration", {})[dev] = \
-                f">= {nfail} of 100 real SQLite traces rejected under deviation {dev}"
+                f"real SQLite traces rejected under deviation {dev}: {nfail > 0}"
             if nfail == 0:
                 v.tool_errors.append(f"binding demonstration: no real trace distinguishes {dev}")
 
     assumptions = ["contract-respecting call sequences only (one transaction at a time per "
-                   "handle, no call after commit, set_working_set_item within the range)",
+                   "handle, nothing called on a transaction after commit, set_working_set_item "
+                   "within the range)",
                    "string contents: three value/key classes (ASCII; non-ASCII with quotes, "
                    "backslash, newline, emoji; empty string, NUL, JSON-path-like keys), "
-                   "sub-second timestamps"]
+                   "sub-second timestamps",
+                   "most scratch databases start as a file copy of an empty database created by "
+                   "SqliteStorage::new (every 16th is created from nothing)"]
     if legacy_note:
         assumptions.append(legacy_note)
     else:
